@@ -11,7 +11,7 @@ CLAIMS = {
              note="Forced schedules cover the data/index window of the variable-length write; other interleavings come from one race-detector execution per run (more in the thorough tier)."),
 }
 
-import json, os, random, re, shutil
+import calendar, json, os, random, re, shutil
 import vlib
 from vlib import Result, Undecided
 
@@ -212,13 +212,24 @@ def run(prop, tier):
             op, vals = write_op_multi(key, 100 * w + k, bool(w % 2), rng.choice([1, 3, 40, 1500] if w % 2 else [1, 3, 40]))
             actors["w%d" % w].append(op)
             written["w%d" % w].append((key, vals))
+    # a writer whose every request opens a NEW YEAR of a bucket that readers are querying (catalog AddFile vs planner)
+    ykey = "S0/1Min/OHLC"
+    actors["wy"] = []
+    written["wy"] = []
+    for k, year in enumerate(list(range(2001, 2017)) if quick else list(range(1975, 2018))):
+        ep = calendar.timegm((year, 6, 1, 12, 0, 0))
+        v = 990000000000 + year
+        actors["wy"].append({"op": "write", "var": False, "via": "csm", "buckets": [{"key": ykey, "cols": [
+            {"name": "Epoch", "type": "i8", "vals": [ep]}, {"name": "V", "type": "i8", "vals": [v]}]}]})
+        written["wy"].append((ykey, [v]))
     for rd in range(3):
         key = "S%d/1Min/%s" % (rd, "TICK" if rd % 2 else "OHLC")
-        actors["r%d" % rd] = [{"op": "query", "dest": key} for _ in range(10 if quick else 40)]
+        actors["r%d" % rd] = [{"op": "query", "dest": key} for _ in range((80 if rd == 0 else 10) if quick else (300 if rd == 0 else 40))]
+    actors["ry"] = [{"op": "query", "dest": ykey} for _ in range(80 if quick else 300)]
     ops = [{"op": "start", "root": root, "loop_wal_ms": 1, "loop_prim_ms": 7, "rotate": 2},
            {"op": "par", "x": {"actors": actors}}, {"op": "sleep", "sleep_ms": 30}] + [{"op": "query", "dest": k} for k in sorted(allkeys)] + [{"op": "shutdown"}]
     env = dict(vlib.GOENV, GORACE="halt_on_error=0 exitcode=0")
-    robs = vlib.run_cases(rbin, [{"id": "race", "ops": ops}], timeout=900, env=env, tag="c18race")
+    robs = vlib.run_cases(rbin, [{"id": "race", "ops": ops}], timeout=900, env=env, tag="c18race", stderr_tail=4000000)
     shutil.rmtree(root, ignore_errors=True)
     stderr = robs.get("_stderr", "")
     o = robs.get(json.dumps("race"))
@@ -260,12 +271,55 @@ def run(prop, tier):
                     break
         res.cov["stress_requests_checked_for_completeness"] = nreq
         res.cov["traces_validated_against_impl"] += 1
+    # ---- a second free-running execution under the race detector: one writer opens a new year file with every request
+    #      (catalog: AddFile registers it in the bucket's file map) while readers keep querying that bucket ----
+    root2 = os.path.join(vlib.scratch(), "c18_years")
+    ykey2 = "ROLL/1D/VAL"
+    years = list(range(1972, 2032)) if quick else list(range(1972, 2132))     # (a plain query starts at 1970)
+    wyops, want = [], []
+    for year in years:
+        ep = calendar.timegm((year, 1, 2, 0, 0, 0))
+        wyops.append({"op": "write", "var": False, "via": "csm", "buckets": [{"key": ykey2, "cols": [
+            {"name": "Epoch", "type": "i8", "vals": [ep]}, {"name": "V", "type": "i8", "vals": [ep * 3 + 7]}]}]})
+        want.append(ep * 3 + 7)
+    actors2 = {"wy": wyops}
+    for rd in range(4):
+        actors2["q%d" % rd] = [{"op": "query", "dest": ykey2} for _ in range(150 if quick else 600)]
+    first = {"op": "write", "var": False, "via": "csm", "buckets": [{"key": ykey2, "cols": [
+        {"name": "Epoch", "type": "i8", "vals": [calendar.timegm((1971, 1, 2, 0, 0, 0))]}, {"name": "V", "type": "i8", "vals": [1]}]}]}
+    ops2 = [{"op": "start", "root": root2}, first, {"op": "query", "dest": ykey2}, {"op": "par", "x": {"actors": actors2}}, {"op": "query", "dest": ykey2}]
+    robs2 = vlib.run_cases(rbin, [{"id": "years", "ops": ops2}], timeout=900, env=env, tag="c18years", stderr_tail=4000000)
+    shutil.rmtree(root2, ignore_errors=True)
+    stderr += robs2.get("_stderr", "")
+    o2 = robs2.get(json.dumps("years"))
+    if isinstance(o2, dict) and "died" in o2:
+        res.violation("the server died while a writer opened new year files and readers queried the bucket: %s" % ((o2.get("stderr") or "") + (o2.get("stdout") or ""))[-600:],
+                      {"check": "readers.newyears", "seed": vlib.seed()})
+    else:
+        completed_before = {1}
+        for name, aobs in (o2[3].get("actors") or {}).items():
+            for x in aobs:
+                if x.get("panic"):
+                    res.violation("panic while new year files are opened under queries (%s): %s" % (name, str(x["panic"])[:300]), {"check": "readers.newyears"})
+                elif name.startswith("q"):
+                    v = query_vals(x)
+                    if isinstance(v, str):
+                        res.violation("query error while new year files are opened: %s" % v, {"check": "readers.newyears", "seed": vlib.seed()})
+                    elif not set(v) <= set(want) | {1}:
+                        res.violation("a query returned rows nobody wrote: %s" % sorted(set(v) - set(want) - {1})[:5], {"check": "readers.newyears"})
+        fin = query_vals(o2[4])
+        if not isinstance(fin, str) and sorted(fin) != sorted(want + [1]):
+            res.violation("after %d acknowledged new-year writes a query returns %d of %d rows" % (len(want), len(fin), len(want) + 1), {"check": "readers.newyears", "seed": vlib.seed()})
+        res.cov["new_year_files_opened_under_queries"] = len(years)
+        res.cov["traces_validated_against_impl"] += 1
     races = parse_races(stderr)
     res.cov["race_reports"] = len(races)
     for sig, text in races.items():
         kf = None
         for k in known.values():
             if k.get("race_signature") and all(f in sig for f in k["race_signature"]):
+                kf = k
+            if k.get("race_sig_exact") and k["race_sig_exact"] == sig:
                 kf = k
         if kf:
             res.known_finding(kf, {"race": sig})
